@@ -5,6 +5,10 @@ props=[json.loads(l) for l in open('/verif/properties.jsonl')]
 ids=[p['id'] for p in props]
 TECH="bounded symbolic execution of the Go SSA of the real code (own engine gosym) with SMT-decided path conditions and assertions (z3 5.1 bit-vectors); counterexamples replayed natively"
 claimed={
+ "C03": dict(
+   text="Bounded symbolic model checking of parser.ParseString (the PEG rule closures and the tree walk, from go/ssa): totality (no panic, AST xor error, termination within the step bound) for every string 'context + N free bytes' in 34 syntactic contexts; explicit and implicit field ids / enum values for all 8 spellings with free digits in structs, unions, exceptions, argument and throws lists; literal unescaping for every body of the stated length in 5 positions and both quote kinds against the documented rule; annotation accumulation; independence of the AST from whitespace, comments and list separators at every token boundary of a 190-token document.",
+   note="Bounds: N<=2 free bytes quick, <=3 thorough (the 64 KiB of the statement is far outside); literal bodies <=3/4 bytes; one layout hole at a time with 1-2 free whitespace bytes or a comment with <=1/2 free bytes. Oracles are in-harness reference code. Trusted: own SSA interpreter + z3; strconv.ParseFloat digits are enumerated by the solver rather than encoded. Leading-zero decimal spellings are not generated.",
+   ref="6 C03"),
  "C14": dict(
    text="Bounded symbolic model checking of fieldmask.NewFieldMask/GetPath on the real SSA: for every byte string of the stated length in 11 syntactic contexts, and for ids/indices/keys written with up to 20 digits, the solver shows that no panic escapes and that exactly one of (mask, error) is returned; accepted numeric paths are members of their own mask.",
    note="Bounds: context prefix + <=2 (quick) / <=4 (thorough) free bytes; digit strings of 1,2,10 free digits and 19/20-digit numbers with 3 free digits. Trusted: own SSA interpreter + z3; function-level models of pathValue's unsafe string header and rand.Read. Outside: JSON (un)marshalling (encoding/json not encodable), longer paths.",
